@@ -101,7 +101,9 @@ def open_zarr_v3_array(
             )
         except zarr.errors.ContainsArrayError as e:
             if mode == "a":
-                return zarr.open_array(store=store, path=path)  # type: ignore[arg-type]
+                existing = zarr.open_array(store=store, path=path)  # type: ignore[arg-type]
+                _check_existing_array(existing, shape, dtype, chunks)
+                return existing
             raise e
 
     assert mode is not None
@@ -126,6 +128,27 @@ def open_zarr_v3_array(
             except zarr.errors.ContainsArrayError as e:
                 if mode == "a":
                     ret[field] = group[field]
+                    _check_existing_array(ret[field], shape, field_dtype, chunks)
                 else:
                     raise e
     return ret
+
+
+def _check_existing_array(existing, shape, dtype, chunks):
+    """An array that is opened rather than created must have the declared layout.
+
+    Tasks write regions of the declared chunk grid, so an existing array with another
+    shape or chunk grid would have its stored chunks written by several tasks.
+    """
+    if shape is not None and tuple(existing.shape) != tuple(shape):
+        raise ValueError(
+            f"Existing array has shape {tuple(existing.shape)}, but an array of shape {tuple(shape)} is being stored"
+        )
+    if chunks is not None and tuple(existing.chunks) != tuple(chunks):
+        raise ValueError(
+            f"Existing array has chunks {tuple(existing.chunks)}, but an array with chunks {tuple(chunks)} is being stored"
+        )
+    if dtype is not None and existing.dtype != dtype:
+        raise ValueError(
+            f"Existing array has dtype {existing.dtype}, but an array of dtype {dtype} is being stored"
+        )
